@@ -98,7 +98,7 @@ GENERIC = {
     "C04": " Also (liquidity module): identifier-kind agreement at every keeper call and no stale copy for every Get/Set accessor pair. Also: a message naming a pool and carrying one coin cannot succeed without the denomination equality with the pool's share denomination; a stored request reaches its executor only behind Status == NotExecuted or when just recorded.",
     "C07": " Also: paired writers (an order id is indexed only together with storing the order). Also: identifier kinds through record constructors and field-by-field record fills (an app id stored as the pair id of the market-making order index). Also: a newly created order is entered into the orderer's index on every success path.",
     "C08": " Also: paired writers mined from the repository and frozen (a new borrow id only with the stored borrow, its entry in the lend position's open-borrow list and the totals update; a removed borrow leaves every index); the LTV check of a draw covers principal and accrued interest. Also (lend module): identifier-kind agreement at every keeper call, no stale copy for every Get/Set accessor pair, and borrow totals follow the change applied to the recorded principal when the function changes it. Also: counter provenance for lend/borrow ids. Also: a lend/borrow record stored under a fresh id advances its counter on the same success path. Also: UpdateLendStats / UpdateBorrowStats store the field plus / minus the amount for the two flag values.",
-    "C09": " Also (liquidation modules): identifier-kind agreement at every keeper call and no stale copy for every Get/Set accessor pair. Also: each sweep reads and stores its cursor under its own key (own prefix, swept app), no two sweeps share a key; a lend position is deleted only under the AmountIn <= 0 test of its own record. Also: the vault length counter that bounds the sweep window moves exactly with vault creation and deletion; readers of the liquidation modules build their store key from their inputs. The debt that decides a vault seizure contains principal, interest and closing fee.",
+    "C09": " Also (liquidation modules): identifier-kind agreement at every keeper call and no stale copy for every Get/Set accessor pair. Also: each sweep reads and stores its cursor under its own key (own prefix, swept app), no two sweeps share a key; a lend position is deleted only under the AmountIn <= 0 test of its own record. Also: the vault length counter that bounds the sweep window moves exactly with vault creation and deletion; readers of the liquidation modules build their store key from their inputs. The debt that decides a vault seizure contains principal, interest and closing fee. A bool parameter that selects between the id lists of a record edits each list under one value of the flag only.",
     "C10": " Also (auction modules): identifier-kind agreement at every keeper call and no stale copy for every Get/Set accessor pair. Also: the elapsed time of the price path is measured from the auction record's own StartTime at all three update sites; at a v1 close the penalty sent to the collector is the collected inflow less the burnt principal. Also: a V2 settlement payout is never sized by the auction's remaining debt. V2 price updates happen only while the auction has not expired; no id parameter of a vault / auction keeper function is ignored.",
     "C11": " Also: the minimum bid step is rounded up; a deleted limit-bid deposit leaves the recorded total (paired writers). Also (auction modules): identifier-kind agreement at every keeper call and no stale copy for every Get/Set accessor pair. Also: in the automatic fill each reduction of the recorded limit-bid total equals the change of the depositor's record on the same path. Also: the depositor's record and the recorded total change by the same amount in every limit-bid function.",
     "C13": " Also: identifier-kind agreement and generic stale-copy rule for locker and collector, per-asset books receive the amount of the same side (sold lot / raised asset) of the auction record as the asset id they are keyed by, and locker handlers tie the records loaded under independent message ids. Also: UpdateCollector raises the net fees by the sum of exactly the fee amounts handed in; counter provenance for locker ids. Also: the stateless validation of the locker messages rejects negative and zero amounts.",
